@@ -1,14 +1,101 @@
+// Command worker executes simulation runs against the rewritten raft package it
+// was built with. One line of JSON per run on stdout.
 package main
 
 import (
+	"bufio"
+	"encoding/json"
+	"flag"
 	"fmt"
+	"os"
+	"time"
 
-	"github.com/jmsadair/raft"
-	"github.com/jmsadair/raft/xsim/simrt"
+	"verifsim/harness"
 )
 
+type replayFile struct {
+	Property  string             `json:"property"`
+	Profile   string             `json:"profile"`
+	Seed      uint64             `json:"seed"`
+	Config    *harness.Config    `json:"config"`
+	Plan      harness.Plan       `json:"plan"`
+	Violation *harness.Violation `json:"violation"`
+	Hash      string             `json:"hash"`
+	Note      string             `json:"note,omitempty"`
+}
+
 func main() {
-	_ = raft.Leader
-	s := simrt.New(1)
-	s.Run(func() { fmt.Println("hello from root task") })
+	profile := flag.String("profile", "core", "profile")
+	start := flag.Uint64("seed", 1, "first seed")
+	count := flag.Int("n", 1, "number of runs (seeds start, start+stride, ...)")
+	stride := flag.Uint64("stride", 1, "seed stride")
+	budget := flag.Float64("budget", 0, "stop after this many wall seconds (0 = no limit)")
+	replay := flag.String("replay", "", "replay file: run exactly its config and plan")
+	trace := flag.Bool("trace", false, "include the event log in the output")
+	perRunLimit := flag.Duration("run-limit", 120*time.Second, "wall-clock watchdog per run")
+	twice := flag.Bool("twice", false, "run every seed twice and compare hashes (determinism self-test)")
+	flag.Parse()
+
+	out := bufio.NewWriter(os.Stdout)
+	defer out.Flush()
+	enc := json.NewEncoder(out)
+
+	// Watchdog: a run that does not finish is an infrastructure failure (exit 2), never a verdict.
+	progress := make(chan struct{}, 1)
+	go func() {
+		for {
+			select {
+			case <-progress:
+			case <-time.After(*perRunLimit):
+				out.Flush()
+				fmt.Fprintf(os.Stderr, "worker: watchdog: a run exceeded %v of wall-clock time\n", *perRunLimit)
+				os.Exit(2)
+			}
+		}
+	}()
+
+	if *replay != "" {
+		data, err := os.ReadFile(*replay)
+		if err != nil {
+			fmt.Fprintln(os.Stderr, "worker:", err)
+			os.Exit(2)
+		}
+		var rf replayFile
+		if err := json.Unmarshal(data, &rf); err != nil {
+			fmt.Fprintln(os.Stderr, "worker: bad replay file:", err)
+			os.Exit(2)
+		}
+		rf.Config.Trace = *trace
+		res := harness.Run(rf.Config, rf.Plan)
+		enc.Encode(res)
+		return
+	}
+
+	t0 := time.Now()
+	for i := 0; i < *count; i++ {
+		if *budget > 0 && time.Since(t0).Seconds() > *budget {
+			break
+		}
+		seed := *start + uint64(i)*(*stride)
+		cfg, plan := harness.Gen(*profile, seed)
+		cfg.Trace = *trace
+		res := harness.Run(cfg, plan)
+		if *twice {
+			cfg2, plan2 := harness.Gen(*profile, seed)
+			res2 := harness.Run(cfg2, plan2)
+			if res2.Hash != res.Hash || res2.Steps != res.Steps {
+				res.Infra = fmt.Sprintf("nondeterminism: seed %d gave hash %s/%d steps then %s/%d steps", seed, res.Hash, res.Steps, res2.Hash, res2.Steps)
+			}
+		}
+		select {
+		case progress <- struct{}{}:
+		default:
+		}
+		enc.Encode(res)
+		if res.Infra != "" {
+			out.Flush()
+			fmt.Fprintln(os.Stderr, "worker: infra:", res.Infra)
+			os.Exit(2)
+		}
+	}
 }
